@@ -264,7 +264,18 @@ func GenSlice(strs *rapid.Generator[string]) *rapid.Generator[Value] {
 // GenFallback draws values of kinds only the fallback formatter handles.
 func GenFallback(strs *rapid.Generator[string]) *rapid.Generator[Value] {
 	return rapid.Custom(func(t *rapid.T) Value {
-		switch rapid.IntRange(0, 6).Draw(t, "fb") {
+		switch rapid.IntRange(0, 9).Draw(t, "fb") {
+		case 7:
+			n := rapid.IntRange(0, 3).Draw(t, "nerrs")
+			es := make([]error, n)
+			for i := range es {
+				es[i] = errors.New(strs.Draw(t, "errtext"))
+			}
+			return Value{"[]error", es}
+		case 8:
+			return Value{"ptr-struct", &Pt{rapid.Int().Draw(t, "x"), strs.Draw(t, "y")}}
+		case 9:
+			return Value{"map-any", map[string]any{strs.Draw(t, "mk"): []string{strs.Draw(t, "mv")}}}
 		case 0:
 			return Value{"struct", Pt{rapid.Int().Draw(t, "x"), strs.Draw(t, "y")}}
 		case 1:
